@@ -1,4 +1,146 @@
-import Rngs.Model.Xoshiro
+/-
+  C05 — every interleaving of `next_u32`, `next_u64`, `fill_bytes(n)` consumes one
+  forward-only native word stream and returns fixed little-endian projections of it.
+
+  The abstract machine is `Rngs.Spec.Stream` (`step32`, `step64`, `stepBlock32`,
+  `stepBlock64`, `stepJitter`, `run`).  This file holds the final refinement theorems only;
+  the generic proofs are in `Rngs.Lib.StreamRefine` (non-buffered generators) and
+  `Rngs.Lib.BlockRefine` (`BlockRng`, `BlockRng64`).
+-/
+import Rngs.Lib.StreamRefine
+import Rngs.Model.XorShift
 namespace Rngs.C05
-theorem placeholder : True := trivial
+open Rngs Rngs.Spec.Stream Rngs.StreamRefine
+
+/-! ## A. non-buffered generators
+
+  `opDirect d` interprets an `Op` by the generator's own `next_u32`, `next_u64` and
+  `fill_bytes` (= `fill_bytes_via_next`).  `stream32 n32 s k` / `stream64 n64 n32 s k` is
+  the `k`-th word of the native stream from state `s` (what the `k+1`-st native-width call
+  alone returns).  `iter (next… ) p s` is the state after exactly `p` native calls. -/
+
+/-- C05 for a 32-bit-word generator from state `s` for the history `ops`: the outputs are
+    those of the abstract machine `step32` over the native stream, and the final state is
+    the native transition applied exactly `pos` times (nothing skipped or repeated). -/
+def Refines32 {σ : Type} (n32 : σ → U32 × σ) (d : Direct σ) (s : σ) (ops : List Op) : Prop :=
+  let spec := run (step32 (stream32 n32 s)) ⟨0, false⟩ ops
+  run (opDirect d) s ops = (spec.1, iter (next32 n32) spec.2.pos s) ∧ spec.2.pending = false
+
+/-- C05 for a 64-bit-word generator: as `Refines32`, with `step64` over the stream of pairs
+    (word, what `next_u32` returns for that step). -/
+def Refines64 {σ : Type} (d : Direct σ) (s : σ) (ops : List Op) : Prop :=
+  let spec := run (step64 (stream64 d.nextU64 d.nextU32 s)) ⟨0, false⟩ ops
+  run (opDirect d) s ops = (spec.1, iter (next64 d.nextU64) spec.2.pos s) ∧ spec.2.pending = false
+
+/-- the 32-bit projection carried by the stream is `proj` of the 64-bit word -/
+def HalfIs {σ : Type} (proj : U64 → U32) (d : Direct σ) (s : σ) : Prop :=
+  ∀ k, (stream64 d.nextU64 d.nextU32 s k).2 = proj (stream64 d.nextU64 d.nextU32 s k).1
+
+/-- `opDirect` of a xoshiro-family generator is literally its three `RngCore` methods. -/
+theorem opDirect_xo {σ : Type} (g : XoGen σ) (s : σ) (n : Nat) :
+    opDirect g.direct s .u32 = (.w32 (g.nextU32 s).1, (g.nextU32 s).2)
+    ∧ opDirect g.direct s .u64 = (.w64 (g.nextU64 s).1, (g.nextU64 s).2)
+    ∧ opDirect g.direct s (.fill n) = (.bytes (g.fill n s).1, (g.fill n s).2) := ⟨rfl, rfl, rfl⟩
+
+theorem opDirect_xorshift (s : XorShift.State) (n : Nat) :
+    opDirect XorShift.direct s .u32 = (.w32 (XorShift.nextU32 s).1, (XorShift.nextU32 s).2)
+    ∧ opDirect XorShift.direct s .u64 = (.w64 (XorShift.nextU64 s).1, (XorShift.nextU64 s).2)
+    ∧ opDirect XorShift.direct s (.fill n) = (.bytes (XorShift.fill n s).1, (XorShift.fill n s).2) :=
+  ⟨rfl, rfl, rfl⟩
+
+theorem opDirect_splitmix (s : U64) (n : Nat) :
+    opDirect SplitMix64.direct s .u32 = (.w32 (SplitMix64.nextU32 s).1, (SplitMix64.nextU32 s).2)
+    ∧ opDirect SplitMix64.direct s .u64 = (.w64 (SplitMix64.nextU64 s).1, (SplitMix64.nextU64 s).2)
+    ∧ opDirect SplitMix64.direct s (.fill n) = (.bytes (SplitMix64.fill n s).1, (SplitMix64.fill n s).2) :=
+  ⟨rfl, rfl, rfl⟩
+
+/-- generic: every generator built as `⟨n32, next_u64_via_u32 n32⟩` -/
+theorem refines32 {σ : Type} (n32 : σ → U32 × σ) (s : σ) (ops : List Op) :
+    Refines32 n32 ⟨n32, nextU64ViaU32 n32⟩ s ops := by
+  obtain ⟨h1, h2, h3⟩ := direct32_refines n32 s ops
+  exact ⟨Prod.ext h1 h2, h3⟩
+
+/-- generic: every generator whose `next_u32` leaves the same successor state as `next_u64` -/
+theorem refines64 {σ : Type} (d : Direct σ) (h : ∀ s, (d.nextU32 s).2 = (d.nextU64 s).2)
+    (s : σ) (ops : List Op) : Refines64 d s ops := by
+  obtain ⟨h1, h2, h3⟩ := direct64_refines d.nextU64 d.nextU32 h s ops
+  exact ⟨Prod.ext h1 h2, h3⟩
+
+/-! ### 32-bit-word generators: `next_u64 = (second << 32) | first` -/
+
+theorem XorShift_refines (s : XorShift.State) (ops : List Op) :
+    Refines32 XorShift.nextU32 XorShift.direct s ops := refines32 _ s ops
+
+theorem Xoroshiro64Star_refines (s : S2 32) (ops : List Op) :
+    Refines32 Xoroshiro64Star.nextU32 Xoroshiro64Star.gen.direct s ops := refines32 _ s ops
+
+theorem Xoroshiro64StarStar_refines (s : S2 32) (ops : List Op) :
+    Refines32 Xoroshiro64StarStar.nextU32 Xoroshiro64StarStar.gen.direct s ops := refines32 _ s ops
+
+theorem Xoshiro128Plus_refines (s : S4 32) (ops : List Op) :
+    Refines32 Xoshiro128Plus.nextU32 Xoshiro128Plus.gen.direct s ops := refines32 _ s ops
+
+theorem Xoshiro128PlusPlus_refines (s : S4 32) (ops : List Op) :
+    Refines32 Xoshiro128PlusPlus.nextU32 Xoshiro128PlusPlus.gen.direct s ops := refines32 _ s ops
+
+theorem Xoshiro128StarStar_refines (s : S4 32) (ops : List Op) :
+    Refines32 Xoshiro128StarStar.nextU32 Xoshiro128StarStar.gen.direct s ops := refines32 _ s ops
+
+/-! ### 64-bit-word generators: `next_u32` = upper half of one word -/
+
+theorem Xoroshiro128Plus_refines (s : S2 64) (ops : List Op) :
+    Refines64 Xoroshiro128Plus.gen.direct s ops ∧ HalfIs highHalf Xoroshiro128Plus.gen.direct s :=
+  ⟨refines64 _ (fun _ => rfl) s ops, fun _ => rfl⟩
+
+theorem Xoshiro256Plus_refines (s : S4 64) (ops : List Op) :
+    Refines64 Xoshiro256Plus.gen.direct s ops ∧ HalfIs highHalf Xoshiro256Plus.gen.direct s :=
+  ⟨refines64 _ (fun _ => rfl) s ops, fun _ => rfl⟩
+
+theorem Xoshiro256PlusPlus_refines (s : S4 64) (ops : List Op) :
+    Refines64 Xoshiro256PlusPlus.gen.direct s ops ∧ HalfIs highHalf Xoshiro256PlusPlus.gen.direct s :=
+  ⟨refines64 _ (fun _ => rfl) s ops, fun _ => rfl⟩
+
+theorem Xoshiro256StarStar_refines (s : S4 64) (ops : List Op) :
+    Refines64 Xoshiro256StarStar.gen.direct s ops ∧ HalfIs highHalf Xoshiro256StarStar.gen.direct s :=
+  ⟨refines64 _ (fun _ => rfl) s ops, fun _ => rfl⟩
+
+theorem Xoshiro512Plus_refines (s : S8) (ops : List Op) :
+    Refines64 Xoshiro512Plus.gen.direct s ops ∧ HalfIs highHalf Xoshiro512Plus.gen.direct s :=
+  ⟨refines64 _ (fun _ => rfl) s ops, fun _ => rfl⟩
+
+theorem Xoshiro512PlusPlus_refines (s : S8) (ops : List Op) :
+    Refines64 Xoshiro512PlusPlus.gen.direct s ops ∧ HalfIs highHalf Xoshiro512PlusPlus.gen.direct s :=
+  ⟨refines64 _ (fun _ => rfl) s ops, fun _ => rfl⟩
+
+theorem Xoshiro512StarStar_refines (s : S8) (ops : List Op) :
+    Refines64 Xoshiro512StarStar.gen.direct s ops ∧ HalfIs highHalf Xoshiro512StarStar.gen.direct s :=
+  ⟨refines64 _ (fun _ => rfl) s ops, fun _ => rfl⟩
+
+/-! ### … lower half for Xoroshiro128PlusPlus / StarStar -/
+
+theorem Xoroshiro128PlusPlus_refines (s : S2 64) (ops : List Op) :
+    Refines64 Xoroshiro128PlusPlus.gen.direct s ops
+    ∧ HalfIs lowHalf Xoroshiro128PlusPlus.gen.direct s :=
+  ⟨refines64 _ (fun _ => rfl) s ops, fun _ => rfl⟩
+
+theorem Xoroshiro128StarStar_refines (s : S2 64) (ops : List Op) :
+    Refines64 Xoroshiro128StarStar.gen.direct s ops
+    ∧ HalfIs lowHalf Xoroshiro128StarStar.gen.direct s :=
+  ⟨refines64 _ (fun _ => rfl) s ops, fun _ => rfl⟩
+
+/-! ### SplitMix64: `next_u32` is its own finaliser of the same counter step -/
+
+theorem SplitMix64_refines (s : U64) (ops : List Op) :
+    Refines64 SplitMix64.direct s ops
+    ∧ ∀ k, stream64 SplitMix64.nextU64 SplitMix64.nextU32 s k =
+        ((SplitMix64.nextU64 (iter (· + SplitMix64.PHI) k s)).1,
+         (SplitMix64.nextU32 (iter (· + SplitMix64.PHI) k s)).1) :=
+  ⟨refines64 _ (fun _ => rfl) s ops, fun _ => rfl⟩
+
+/-- the statement is not vacuous: a concrete history, evaluated -/
+example :
+    (run (opDirect Xoshiro256PlusPlus.gen.direct) ⟨1, 2, 3, 4⟩ [.u32, .fill 3, .u64]).2
+      = iter (next64 Xoshiro256PlusPlus.nextU64) 3 ⟨1, 2, 3, 4⟩ :=
+  ((Xoshiro256PlusPlus_refines ⟨1, 2, 3, 4⟩ [.u32, .fill 3, .u64]).1.1 ▸ rfl)
+
 end Rngs.C05
